@@ -6,6 +6,9 @@ cd "$(dirname "$0")"
 export CARGO_NET_OFFLINE=true
 mkdir -p work
 (cd harness && cargo build --offline --quiet)
+# the same harness under AddressSanitizer (nightly toolchain) for the C17 replay; its absence is tolerated
+(cd harness && RUSTFLAGS="-Zsanitizer=address" CARGO_TARGET_DIR="$PWD/target-asan" \
+   cargo +nightly build --offline --quiet --target x86_64-unknown-linux-gnu) || echo "setup: ASan harness not built"
 ./harness/target/debug/harness dump-table > work/dump.jsonl
 python3 tools/gen_table.py work/dump.jsonl "${VERIF_REPO:-/repo}" lean/ChemProofs/Gen > /dev/null
 python3 tools/gen_consts.py "${VERIF_REPO:-/repo}" lean/ChemProofs/Gen > /dev/null
